@@ -47,6 +47,10 @@ BREAKING = [
      "                    if handle.stream_position().map_err(FileStoreError::IO)? + 1\n                        >= handle.metadata().map_err(FileStoreError::IO)?.len()", {"C07": 1}),
     ("send-segment-reads-behind-offset", SEND, "        handle\n            .seek(SeekFrom::Start(offset))\n            .map_err(FileStoreError::IO)?;\n\n        // use take",
      "        handle\n            .seek(SeekFrom::Start(offset.saturating_sub(1)))\n            .map_err(FileStoreError::IO)?;\n\n        // use take", {"C07": 1}),
+    ("transport-decodes-whole-buffer", "cfdp-daemon/src/transport.rs", "PDU::decode(&mut &self.buffer[..n])", "PDU::decode(&mut self.buffer.as_slice())", {"C16": 1}),
+    ("filestore-root-prefix-unnormalised", FS, "        let relative = path.strip_prefix(&self.root_path).unwrap_or(path);\n        self.root_path.join(normalize_path(relative))",
+     "        if path.starts_with(&self.root_path) {\n            return path.to_path_buf();\n        }\n        self.root_path.join(normalize_path(path))", {"C12": 1}),
+    ("filestore-normalize-keeps-parent", FS, "            Utf8Component::ParentDir => {\n                ret.pop();\n            }", "            Utf8Component::ParentDir => {\n                ret.push(\"..\");\n            }", {"C12": 1}),
     ("crc-poly-typo", PDU, "let poly = 0x1021;", "let poly = 0x1012;", {"C15": 1}),
     ("crc-over-reencoding", PDU, "                    let mut temp = received_pdu.header.clone().encode();\n                    temp.extend_from_slice(remaining_msg.as_slice());\n                    temp",
      "                    let mut temp = received_pdu.clone().encode();\n                    temp.truncate(temp.len() - 2);\n                    temp", {"C15": 1}),
